@@ -461,6 +461,115 @@ type atnWitness struct {
 	Grammar bool   `json:"grammar_accepts"`
 }
 
+// lexerATNLean: the decoded tables as Lean data (Generated/LexerATN.lean), set by compareLexerATN when the tables are
+// readable and inside the modelled fragment (no predicates, no EOF edges); "" otherwise
+var lexerATNLean string
+
+// atnToLean renders the decoded ATN and, per token rule in the priority order of the grammar, its start and stop state
+// and a partition of the code points into intervals on which every character test reachable from the rule (tables and
+// grammar) is constant. The partition is a hint: Lean checks that it covers 0..0x10FFFF and that it is uniform.
+func atnToLean(a *atn, order []int, kinds []int, res []*rx) string {
+	var sb strings.Builder
+	sb.WriteString("import RulesModel.Model.ATN\n/-! GENERATED by /verif/extract (extract/atn.go) from the serialised ATN in /repo/parser/jsonquery_lexer.go — do not edit. -/\nnamespace Rules.Generated\nopen Rules.NFA\n\n")
+	ivs := func(set [][2]rune) string {
+		var ps []string
+		for _, r := range set {
+			ps = append(ps, fmt.Sprintf("(%d, %d)", r[0], r[1]))
+		}
+		return "[" + strings.Join(ps, ", ") + "]"
+	}
+	var edges []string
+	for src, es := range a.edges {
+		for _, e := range es {
+			switch e.kind {
+			case 1, 6:
+				edges = append(edges, fmt.Sprintf(".eps %d %d", src, e.trg))
+			case 2:
+				if e.a3 != 0 {
+					return ""
+				}
+				edges = append(edges, fmt.Sprintf(".chr %d ⟨false, [(%d, %d)]⟩ %d", src, e.a1, e.a2, e.trg))
+			case 5:
+				if e.a3 != 0 {
+					return ""
+				}
+				edges = append(edges, fmt.Sprintf(".chr %d ⟨false, [(%d, %d)]⟩ %d", src, e.a1, e.a1, e.trg))
+			case 7, 8:
+				if e.a1 < 0 || e.a1 >= len(a.sets) {
+					return ""
+				}
+				edges = append(edges, fmt.Sprintf(".chr %d ⟨%v, %s⟩ %d", src, e.kind == 8, ivs(a.sets[e.a1]), e.trg))
+			case 9:
+				edges = append(edges, fmt.Sprintf(".chr %d ⟨true, []⟩ %d", src, e.trg))
+			case 3:
+				edges = append(edges, fmt.Sprintf(".call %d %d %d", src, e.a1, e.trg))
+			default:
+				return "" // predicates: outside the modelled fragment
+			}
+		}
+	}
+	var stops []string
+	for s, t := range a.stateType {
+		if t == 7 {
+			stops = append(stops, strconv.Itoa(s))
+		}
+	}
+	sb.WriteString("def lexerAtnData : ATN := {\n  edges := [\n    " + strings.Join(edges, ",\n    ") + "],\n  stops := [" + strings.Join(stops, ", ") + "] }\n\n")
+	sb.WriteString("/-- per token rule, in the priority order of the grammar: token type, start state, stop state, intervals of code points -/\n")
+	var rows []string
+	for i, ri := range order {
+		// states reachable from the rule's start (through calls too)
+		seen := map[int]bool{}
+		work := []int{a.ruleStart[ri]}
+		bounds := map[rune]bool{0: true}
+		for len(work) > 0 {
+			q := work[len(work)-1]
+			work = work[:len(work)-1]
+			if seen[q] {
+				continue
+			}
+			seen[q] = true
+			for _, e := range a.edges[q] {
+				work = append(work, e.trg)
+				switch e.kind {
+				case 3:
+					work = append(work, e.a1)
+				case 2:
+					bounds[rune(e.a1)] = true
+					bounds[rune(e.a2)+1] = true
+				case 5:
+					bounds[rune(e.a1)] = true
+					bounds[rune(e.a1)+1] = true
+				case 7, 8:
+					for _, r := range a.sets[e.a1] {
+						bounds[r[0]] = true
+						bounds[r[1]+1] = true
+					}
+				}
+			}
+		}
+		res[i].bounds(bounds)
+		var bs []int
+		for b := range bounds {
+			if b >= 0 && b <= maxRune {
+				bs = append(bs, int(b))
+			}
+		}
+		sort.Ints(bs)
+		var cls []string
+		for j, b := range bs {
+			hi := int(maxRune)
+			if j+1 < len(bs) {
+				hi = bs[j+1] - 1
+			}
+			cls = append(cls, fmt.Sprintf("(%d, %d)", b, hi))
+		}
+		rows = append(rows, fmt.Sprintf("(%d, %d, %d, [%s])", kinds[i], a.ruleStart[ri], a.ruleStop[ri], strings.Join(cls, ", ")))
+	}
+	sb.WriteString("def lexerAtnRules : List (Nat × Nat × Nat × List (Nat × Nat)) := [\n  " + strings.Join(rows, ",\n  ") + "]\n\nend Rules.Generated\n")
+	return sb.String()
+}
+
 // compareLexerATN returns ("equivalent" | "differs" | "unreadable: why", witnesses)
 func compareLexerATN(file *ast.File, g *grammar, tokenRules []*grule, implicit []string, render func(ast.Node) string) (string, []atnWitness) {
 	var data []int
@@ -554,6 +663,16 @@ func compareLexerATN(file *ast.File, g *grammar, tokenRules []*grule, implicit [
 				bounds[rune(e.a1)+1] = true
 			}
 		}
+	}
+	{
+		var order, kinds []int
+		var res []*rx
+		for tok := 1; tok <= len(wants); tok++ {
+			order = append(order, byTok[tok])
+			kinds = append(kinds, tok)
+			res = append(res, wants[tok-1].re)
+		}
+		lexerATNLean = atnToLean(a, order, kinds, res)
 	}
 	var reps []rune
 	for b := range bounds {
